@@ -439,6 +439,8 @@ def judge(cmd, exp, p, m):
             return "repeat without self-override must be ArgumentConflict, got %s" % p["ekind"]
         return None
     if p["kind"] == "err":
+        if p["ekind"] == "MissingRequiredArgument" and any("required" in a["flags"] for a in cmd["args"]):
+            return None      # which lines a `required` flag rejects is C10's business; the fold says what accepted lines mean
         return "valid line of the conventional class rejected with %s (expected %s)" % (
             p["ekind"], {k.decode(): show_groups(v) for k, v in exp[1].items()})
     ents, _ = entries(m)
